@@ -68,6 +68,7 @@ type Unit struct {
 	bodyPos         token.Pos
 	loopsSeen       map[int]bool
 	funcLits        []*ast.FuncLit
+	litGroup        bool // obligations emitted now belong to an escaping function literal (group prefix "lit:")
 	rangeVars       map[int]*types.Var
 	visitedVars     map[int]*types.Var
 	inlineLit       map[*ast.FuncLit]bool
